@@ -60,6 +60,15 @@ CLAIMED = {
              "strictly sorted points, extrapolation only when enabled, CalibrationError otherwise), enumerated, boolean. "
              "Arithmetic is exact Rat; the correspondence runs in the exact-arithmetic regime with a Fraction-based reference.",
         design="§7 C08", technique="Lean 4 proof (list induction, grind over Rat) + correspondence check"),
+    "C07": dict(
+        text="binary_value (the field's bits left-padded to whole bytes), string_raw_buffer (bits followed by zero padding, "
+             "as bytes), text_whole / text_terminated (first occurrence of the termination bytes, with minimality) / text_leading "
+             "(size tag read from the buffer; exactly strlen bits decoded), size_fixed / size_reference_binary / size_lookup_binary, "
+             "cursor_binary / cursor_string (cursor advances by exactly the computed length). `decode` is the Lean codec model "
+             "(ASCII, Latin-1, cp1252, strict UTF-8/16/32 with BOM rules), validated against CPython on an adversarial stream. "
+             "Tied to the code by generated fields over all encodings, delimiters and length specifications, with an independent "
+             "bit-string reference that uses Python's own codecs.",
+        design="§7 C07", technique="Lean 4 proof (on top of C03 lemmas) + correspondence check"),
 }
 
 NOT_YET = "check not built yet (work in progress; see DESIGN.md §11 build order)"
